@@ -209,7 +209,9 @@ class HamiltonianChain(MarkovChain):
         )
 
     def finite_diff(self, t: ndarray) -> ndarray:
-        p = self.posterior(t) * self.inv_temp
+        # like a user-supplied gradient, this is the gradient of the un-tempered
+        # log-probability: the leapfrog update applies the inverse temperature itself
+        p = self.posterior(t)
         G = zeros(self.n_parameters)
         for i in range(self.n_parameters):
             # relative step, with an absolute floor so that coordinates at
@@ -223,7 +225,7 @@ class HamiltonianChain(MarkovChain):
             if self.bounds is not None and not self.bounds.inside(t_step):
                 dt = -dt
                 t_step[i] = t[i] + dt
-            G[i] = (self.posterior(t_step) * self.inv_temp - p) / dt
+            G[i] = (self.posterior(t_step) - p) / dt
         return G
 
     def get_last(self) -> ndarray:
